@@ -85,9 +85,16 @@ theorem code_is_class_partial (s : State) (hinv : Inv s) (c : Nat) (k : Conn)
   subst hk
   exact ⟨_, _, h1, modelCode_in_class s.fsm m cause hst hcause hd, h2, h3⟩
 
-/-- ... and it applies to every state a run can reach. -/
-theorem code_is_class_reachable (cfg : Cfg) (rib : Bool) (evs : List Event) : Inv (run (init cfg rib) evs).1 :=
-  run_inv evs _ (inv_init cfg rib)
+/-- ... in particular after ANY list of events: the state a run reaches satisfies `Inv`. -/
+theorem code_is_class_partial_run (cfg : Cfg) (rib : Bool) (evs : List Event) (c : Nat) (k : Conn)
+    (haw : awaited (run (init cfg rib) evs).1 = some c) (hc : (run (init cfg rib) evs).1.conn = some k)
+    (hk : k.id = c) (hr : k.rst = false) (m : Msg) (cause : Cause)
+    (hcause : causeOf (run (init cfg rib) evs).1.fsm m = some cause)
+    (hd : Deviates (run (init cfg rib) evs).1.fsm m = false) :
+    ∃ code sub, sendsOn c (deliver m (run (init cfg rib) evs).1).2 = [.notification code sub] ∧
+      (code, sub) ∈ errorClass cause (run (init cfg rib) evs).1.fsm ∧
+      Out.close c ∈ (deliver m (run (init cfg rib) evs).1).2 ∧ (deliver m (run (init cfg rib) evs).1).1.conn = none :=
+  code_is_class_partial _ (run_inv evs _ (inv_init cfg rib)) c k haw hc hk hr m cause hcause hd
 
 /-- **finding F31.** An OPEN read in ESTABLISHED is silently accepted: nothing is written, the
     session goes on (RFC 4271 §8.2.2 / RFC 6608: NOTIFICATION 5/3). -/
